@@ -287,6 +287,20 @@ class SourceFile:
                         cands.append(it)
                 elif it.name == rest:
                     cands.append(it)
+            if len(cands) > 1 and part is not parts[-1]:
+                # several impl blocks with the same header: keep the one(s) that contain the rest of the path
+                rest_path = ' :: '.join(parts[parts.index(part) + 1:])
+                keep = []
+                for c in cands:
+                    sub = SourceFile.__new__(SourceFile)
+                    sub.path, sub.src, sub.mask = self.path, self.src, self.mask
+                    try:
+                        sub.items = self._children(c)
+                        sub.find(rest_path)
+                        keep.append(c)
+                    except AnchorLost:
+                        pass
+                cands = keep
             if len(cands) != 1:
                 raise AnchorLost('%s: item "%s" (in "%s") found %d times' % (self.path, part, path, len(cands)))
             found = cands[0]
